@@ -461,21 +461,36 @@ func (j *packedJob) prepare() bool {
 	if bytes.Equal(old[hp+H:hp+L], cur[hp+H:hp+L]) {
 		zBefore = hBefore // an all-zero (or empty) body shows nothing; assume it follows the header
 	}
-	var seq []string // header rewrite is assumed to precede the zeroing inside one group (dele.go)
-	if hBefore {
-		seq = append(seq, "H")
+	// The index recorder places header rewrite and body release relative to the index mutation; which
+	// of the two comes first when both lie on the same side of it is OBSERVED too: the system-call
+	// trace of the diskpacked child (trace.go) shows the order of the pack writes of a remove.  Only
+	// without a usable trace is the order of dele.go as it was read (header first) assumed.
+	packOrders, orderSource := packOrder.removeOrders()
+	r.Note("pack_write_order_source", orderSource)
+	var seqs [][]string
+	for _, po := range packOrders {
+		var seq []string
+		for _, before := range []bool{true, false} {
+			for _, e := range po {
+				switch {
+				case e == 'H' && hBefore == before:
+					seq = append(seq, "H")
+				case e == 'Z' && zBefore == before && size > 0:
+					seq = append(seq, "Z")
+				}
+			}
+			if before {
+				seq = append(seq, "I")
+			}
+		}
+		seqs = append(seqs, seq)
+		r.Note("observed_order", "remove: "+strings.Join(seq, ","))
 	}
-	if zBefore && size > 0 {
-		seq = append(seq, "Z")
+	var seqNames []string
+	for _, seq := range seqs {
+		seqNames = append(seqNames, strings.Join(seq, ","))
 	}
-	seq = append(seq, "I")
-	if !hBefore {
-		seq = append(seq, "H")
-	}
-	if !zBefore && size > 0 {
-		seq = append(seq, "Z")
-	}
-	r.Note("observed_order", "remove: "+strings.Join(seq, ","))
+	seqText := strings.Join(seqNames, " | ")
 	// build(h, z): h = header bytes rewritten (0..H), z = body bytes zeroed (0..size)
 	build := func(h, z int) map[string][]byte {
 		c := append([]byte(nil), old...)
@@ -495,20 +510,26 @@ func (j *packedJob) prepare() bool {
 	}
 	st := func(kind, off string, h, z int, idx string) {
 		p := map[string]int{"H": prog(h, H), "Z": prog(z, size), "I": map[string]int{"before": 0, "after": 2}[idx]}
-		consistent, open := true, false
-		for _, e := range seq {
-			if open && p[e] != 0 {
-				consistent = false
+		// a process death leaves a prefix of the sequence of effects (the last one possibly partial):
+		// consistent with ANY observed sequence = reachable by killing the process
+		consistent := false
+		for _, seq := range seqs {
+			ok, open := true, false
+			for _, e := range seq {
+				if open && p[e] != 0 {
+					ok = false
+				}
+				if p[e] != 2 {
+					open = true
+				}
 			}
-			if p[e] != 2 {
-				open = true
-			}
+			consistent = consistent || ok
 		}
 		if !consistent {
 			kind = "pl-" + kind // only a power loss (nothing on this path is fsynced) produces this subset
 		}
 		add(packedState{kind: kind, off: off, index: idx, packs: build(h, z),
-			detail: fmt.Sprintf("%s: %d of %d header bytes rewritten, %d of %d body bytes zeroed, index row %s (observed order of effects: %s)", name, h, H, z, size, map[string]string{"before": "kept", "after": "deleted"}[idx], strings.Join(seq, ","))})
+			detail: fmt.Sprintf("%s: %d of %d header bytes rewritten, %d of %d body bytes zeroed, index row %s (observed order of effects: %s)", name, h, H, z, size, map[string]string{"before": "kept", "after": "deleted"}[idx], seqText+"; pack write order: "+orderSource)})
 	}
 	st("remove-none", "-", 0, 0, "before")
 	for i, h := range []int{4, H / 2, H - 3} {
